@@ -572,7 +572,11 @@ def to_dtype(t, dtype):
     if dtype is None or dtype == t.dtype:
         return t           # torch returns self when nothing changes
     if t.dtype in COMPLEX and dtype not in COMPLEX:
-        raise OutOfSubset('complex -> real cast discards the imaginary part')
+        # torch discards the imaginary part (with a warning): the values are not modelled, the dtype is
+        ex().notes.append(('lossy_cast', 'complex -> %s cast discards the imaginary part' % dtype))
+        out = STensor(list(t.axes), dtype, None, lib=t.lib, contiguous=t.contiguous)
+        out.ghost['lossy_cast'] = True
+        return derive(out, t)
     out = STensor(list(t.axes), dtype, t._val, ival=t.ival, lib=t.lib, contiguous=t.contiguous)
     out.ghost = dict(t.ghost)
     return derive(out, t)
@@ -720,7 +724,20 @@ def reshape(t, shape):
         elif s < 0:
             raise PyRaise('RuntimeError', 'invalid shape dimension', origin='torch')
     # grouping
-    new_axes, mapping = _regroup(src, [sz(s) for s in shape])
+    try:
+        new_axes, mapping = _regroup(src, [sz(s) for s in shape])
+    except OutOfSubset:
+        # the target sizes do not regroup the atomic factors (a reshape that reinterprets the flat index): exact semantics
+        # through the flat C-order index (div / mod -- hard for the solver, fine for exact evaluation at concrete sizes)
+        new_axes = [Axis(sz(s)) for s in shape]
+        srcq = [f for f in src]
+
+        def mapping(idx):
+            flat = 0
+            for k, s_ in enumerate(shape):
+                flat = flat * s_ + idx[k][0]
+            tup = unflatten(flat, srcq) if srcq else ()
+            return {f.id: v for f, v in zip(srcq, tup)}
 
     def srcmap(idx):
         fmap = mapping(idx)
